@@ -9,6 +9,8 @@ import (
 	"os"
 	"os/exec"
 	"path/filepath"
+	"runtime"
+	"runtime/debug"
 	"sort"
 	"strconv"
 	"strings"
@@ -44,7 +46,19 @@ type Finding struct {
 	Expected any          `json:"expected,omitempty"`
 	Observed any          `json:"observed,omitempty"`
 	Sample   any          `json:"materialised,omitempty"`
-	Path     string       `json:"-"`
+	// Sequence: the violation needs process state left behind by earlier runs; replay
+	// executes these runs in order in one fresh process, the last one must violate.
+	Sequence    *SeqSpec `json:"sequence,omitempty"`
+	SliceFrom   uint64   `json:"slice_from"`
+	SliceStride uint64   `json:"slice_stride"`
+	Path        string   `json:"-"`
+}
+
+type SeqSpec struct {
+	Base   uint64 `json:"base_seed"`
+	From   uint64 `json:"from_index"`
+	Stride uint64 `json:"stride"`
+	Count  int    `json:"count"`
 }
 
 type WorkerReport struct {
@@ -71,6 +85,14 @@ func main() {
 	if len(os.Args) < 2 {
 		fmt.Fprintln(os.Stderr, "usage: simcheck run|worker|replay|trace ...")
 		os.Exit(2)
+	}
+	if os.Args[1] != "run" {
+		// one P and no background GC cycles: per-P pools and everything else the Go
+		// runtime keeps per processor behave the same way in every process, so state
+		// that survives between simulated runs replays too. Parallelism comes from
+		// running 16 worker processes.
+		runtime.GOMAXPROCS(1)
+		debug.SetGCPercent(-1)
 	}
 	switch os.Args[1] {
 	case "run":
@@ -121,6 +143,13 @@ func cmdWorker(args []string) int {
 	start := time.Now()
 	opt := sim.RunOpt{Race: sim.RaceEnabled}
 	seenFinding := map[string]bool{}
+	type pendingFinding struct {
+		v    *sim.Violation
+		tv   sim.TapeVals
+		seed uint64
+		idx  uint64
+	}
+	var pending []pendingFinding
 	what := ""
 	for n := 0; n < *count; n++ {
 		if *deadline > 0 && time.Since(start).Seconds() > *deadline {
@@ -133,7 +162,7 @@ func cmdWorker(args []string) int {
 		tp := sim.NewGenTapes(seed)
 		ropt := opt
 		ropt.Sample = len(rep.Samples) < 2 && n%7 == 3
-		o := c.Run(tp, ropt)
+		o := sim.SafeRun(c, tp, ropt)
 		wd.Stop()
 		rep.Runs++
 		if o.Evals > 0 {
@@ -191,36 +220,40 @@ func cmdWorker(args []string) int {
 				continue
 			}
 			seenFinding[id] = true
-			tv := tp.Snapshot()
-			wd2 := watchdog(600*time.Second, &what)
-			maxEv := 400
-			if v.Class == "deadlock" {
-				maxEv = 120
-			}
-			small, st := sim.Shrink(c, tv, id, sim.RunOpt{Race: sim.RaceEnabled}, maxEv, 40*time.Second)
-			// final run on the minimised tapes for the materialised description
-			fo := c.Run(sim.ReplayTapes(small), sim.RunOpt{Race: sim.RaceEnabled, Sample: true})
-			wd2.Stop()
-			f := Finding{Property: *prop, Class: v.Class, Key: v.Key, Detail: v.Detail, Seed: seed, RunIndex: idx, Race: sim.RaceEnabled, Tapes: small, Shrink: st}
-			for _, fv := range fo.Violations {
-				if fv.ID() == id {
-					f.Detail, f.Expected, f.Observed = fv.Detail, fv.Expected, fv.Observed
-				}
-			}
-			f.ProgHash = fo.ProgHash
-			f.Sample = fo.Sample
-			name := fmt.Sprintf("%s-%s-%d-w%d.json", *prop, sanitize(v.Class+"-"+v.Key), idx, *wid)
-			f.Path = filepath.Join(verifDir, "replays", name)
-			os.MkdirAll(filepath.Dir(f.Path), 0o755)
-			b, _ := json.MarshalIndent(f, "", " ")
-			if err := os.WriteFile(f.Path, b, 0o644); err != nil {
-				rep.HarnessErr = "cannot write replay file: " + err.Error()
-			}
-			f.Sample, f.Observed, f.Expected = nil, nil, nil
-			ff := f
-			rep.Findings = append(rep.Findings, ff)
-			rep.Findings[len(rep.Findings)-1].Path = f.Path
+			pending = append(pending, pendingFinding{v: v, tv: tp.Snapshot(), seed: seed, idx: idx})
 		}
+	}
+	// minimise after the slice is done, so that the process history of every finding is
+	// exactly the runs of this slice before it (needed for sequence replays)
+	for _, pf := range pending {
+		v, id := pf.v, pf.v.ID()
+		wd2 := watchdog(600*time.Second, &what)
+		maxEv := 400
+		if v.Class == "deadlock" {
+			maxEv = 120
+		}
+		small, st := sim.Shrink(c, pf.tv, id, sim.RunOpt{Race: sim.RaceEnabled}, maxEv, 40*time.Second)
+		// final run on the minimised tapes for the materialised description
+		fo := sim.SafeRun(c, sim.ReplayTapes(small), sim.RunOpt{Race: sim.RaceEnabled, Sample: true})
+		wd2.Stop()
+		f := Finding{Property: *prop, Class: v.Class, Key: v.Key, Detail: v.Detail, Seed: pf.seed, RunIndex: pf.idx, Race: sim.RaceEnabled, Tapes: small, Shrink: st,
+			SliceFrom: *from, SliceStride: *stride}
+		for _, fv := range fo.Violations {
+			if fv.ID() == id {
+				f.Detail, f.Expected, f.Observed = fv.Detail, fv.Expected, fv.Observed
+			}
+		}
+		f.ProgHash = fo.ProgHash
+		f.Sample = fo.Sample
+		name := fmt.Sprintf("%s-%s-%d-w%d.json", *prop, sanitize(v.Class+"-"+v.Key), pf.idx, *wid)
+		f.Path = filepath.Join(verifDir, "replays", name)
+		os.MkdirAll(filepath.Dir(f.Path), 0o755)
+		b, _ := json.MarshalIndent(f, "", " ")
+		if err := os.WriteFile(f.Path, b, 0o644); err != nil {
+			rep.HarnessErr = "cannot write replay file: " + err.Error()
+		}
+		f.Sample, f.Observed, f.Expected = nil, nil, nil
+		rep.Findings = append(rep.Findings, f)
 	}
 	rep.WallS = time.Since(start).Seconds()
 	type wire struct {
@@ -279,6 +312,9 @@ func cmdReplay(args []string) int {
 		fmt.Fprintln(os.Stderr, "unknown property", f.Property)
 		return 2
 	}
+	if f.Sequence != nil && (!f.Race || sim.RaceEnabled) {
+		return replaySequence(c, &f, *quiet)
+	}
 	if f.Race && !sim.RaceEnabled {
 		// race-class findings need the race binary
 		bin := filepath.Join(verifDir, ".build", "simcheck-race")
@@ -295,7 +331,7 @@ func cmdReplay(args []string) int {
 	}
 	what := "replay " + *file
 	wd := watchdog(120*time.Second, &what)
-	o := c.Run(sim.ReplayTapes(f.Tapes), sim.RunOpt{Race: sim.RaceEnabled, Sample: true, KeepLog: !*quiet})
+	o := sim.SafeRun(c, sim.ReplayTapes(f.Tapes), sim.RunOpt{Race: sim.RaceEnabled, Sample: true, KeepLog: !*quiet})
 	wd.Stop()
 	if o.HarnessErr != "" {
 		fmt.Fprintln(os.Stderr, "HARNESS ERROR:", o.HarnessErr)
@@ -306,7 +342,7 @@ func cmdReplay(args []string) int {
 		return 2
 	}
 	for _, v := range o.Violations {
-		if v.Class == f.Class && (v.Key == f.Key || (v.Class == "race" && raceKeyMatch(v.Key, f.Key))) {
+		if v.Class == f.Class && (v.Key == f.Key || (v.Class == "race" && (raceKeyMatch(v.Key, f.Key) || !hasRaceKey(o, f.Key)))) {
 			if !*quiet {
 				for _, l := range o.Log {
 					fmt.Println(l)
@@ -334,6 +370,40 @@ func cmdReplay(args []string) int {
 	return 0
 }
 
+// replaySequence executes the recorded slice of runs in order in this (fresh) process;
+// the last one must report the violation. Used when a violation needs process state
+// left behind by earlier runs (e.g. a package-level pool or cache inside the engine).
+func replaySequence(c sim.Checker, f *Finding, quiet bool) int {
+	sq := f.Sequence
+	var last *sim.Outcome
+	for n := 0; n < sq.Count; n++ {
+		idx := sq.From + uint64(n)*sq.Stride
+		seed := sim.MixSeed(sq.Base, f.Property, idx)
+		what := fmt.Sprintf("sequence replay %s index %d", f.Property, idx)
+		wd := watchdog(120*time.Second, &what)
+		last = sim.SafeRun(c, sim.NewGenTapes(seed), sim.RunOpt{Race: sim.RaceEnabled, Sample: n == sq.Count-1})
+		wd.Stop()
+		if last.HarnessErr != "" {
+			fmt.Fprintln(os.Stderr, "HARNESS ERROR:", last.HarnessErr)
+			return 2
+		}
+	}
+	if last != nil {
+		for _, v := range last.Violations {
+			if v.Class == f.Class && (v.Key == f.Key || v.Class == "race") {
+				if !quiet {
+					sb, _ := json.MarshalIndent(last.Sample, "", " ")
+					fmt.Printf("materialised (last run of the sequence): %s\ndetail: %s\n", sb, v.Detail)
+				}
+				fmt.Printf("REPRODUCED property=%s class=%s key=%q (sequence of %d runs in one process)\n", f.Property, v.Class, v.Key, sq.Count)
+				return 1
+			}
+		}
+	}
+	fmt.Printf("NOT-REPRODUCED property=%s class=%s key=%q (sequence of %d runs)\n", f.Property, f.Class, f.Key, sq.Count)
+	return 0
+}
+
 // ------------------------------------------------------------------------- trace
 
 func cmdTrace(args []string) int {
@@ -352,7 +422,7 @@ func cmdTrace(args []string) int {
 	for i := 0; i < *count; i++ {
 		idx := *from + uint64(i)
 		seed := sim.MixSeed(*base, *prop, idx)
-		o := c.Run(sim.NewGenTapes(seed), sim.RunOpt{KeepLog: true, Sample: true, Race: sim.RaceEnabled})
+		o := sim.SafeRun(c, sim.NewGenTapes(seed), sim.RunOpt{KeepLog: true, Sample: true, Race: sim.RaceEnabled})
 		fmt.Fprintf(w, "== run %d seed %d steps %d trace %x prog %x nontrivial %v harness %q\n", idx, seed, o.Steps, o.TraceHash, o.ProgHash, o.NonTrivial, o.HarnessErr)
 		for _, l := range o.Log {
 			fmt.Fprintln(w, l)
@@ -586,6 +656,7 @@ func cmdRun(args []string) int {
 	})
 	reported := map[string]bool{}
 	violations := 0
+	unconfirmed := ""
 	knownHit := map[int]bool{}
 	for _, f := range findings {
 		id := f.Class + "|" + f.Key
@@ -617,33 +688,77 @@ func cmdRun(args []string) int {
 			bin = raceBin
 			env = raceEnv(env, filepath.Join(verifDir, ".build", "racelog", "confirm"))
 		}
-		var outb []byte
-		code := 0
-		attempts := 1
-		if f.Race {
-			attempts = 3 // the race runtime keeps a bounded access history; a report can be lost
-		}
-		for a := 0; a < attempts; a++ {
-			cmd := exec.Command(bin, "replay", "-quiet", "-file", f.Path)
-			cmd.Env = env
-			var err error
-			outb, err = cmd.CombinedOutput()
-			code = 0
-			if ee, ok := err.(*exec.ExitError); ok {
-				code = ee.ExitCode()
-			} else if err != nil {
-				code = 2
+		runReplay := func(path string) (int, string) {
+			attempts := 1
+			if f.Race {
+				attempts = 3 // the race runtime keeps a bounded access history; a report can be lost
 			}
-			if code == 1 {
-				break
+			code, outs := 0, ""
+			for a := 0; a < attempts; a++ {
+				cmd := exec.Command(bin, "replay", "-quiet", "-file", path)
+				cmd.Env = env
+				outb, err := cmd.CombinedOutput()
+				outs = string(outb)
+				code = 0
+				if ee, ok := err.(*exec.ExitError); ok {
+					code = ee.ExitCode()
+				} else if err != nil {
+					code = 2
+				}
+				if code == 1 {
+					break
+				}
+			}
+			return code, outs
+		}
+		code, outs := runReplay(f.Path)
+		confirmed := code == 1 && strings.Contains(outs, "REPRODUCED property="+*prop)
+		if !confirmed && f.SliceStride > 0 {
+			// The single run does not violate on its own: it may need state that earlier runs
+			// of the same worker process left behind inside the engine. Re-execute growing
+			// windows of that worker's slice, ending with the violating run, in a fresh process.
+			nBefore := int((f.RunIndex - f.SliceFrom) / f.SliceStride)
+			for _, w := range []int{2, 4, 16, 64, 256, 1 << 30} {
+				if w-1 > nBefore {
+					w = nBefore + 1
+				}
+				if w < 2 {
+					break
+				}
+				sf := f
+				sf.Tapes = sim.TapeVals{}
+				sf.Sequence = &SeqSpec{Base: baseSeed, From: f.RunIndex - uint64(w-1)*f.SliceStride, Stride: f.SliceStride, Count: w}
+				sf.Detail = f.Detail + " [needs engine state left behind by the preceding runs of the sequence]"
+				b, _ := json.MarshalIndent(sf, "", " ")
+				seqPath := strings.TrimSuffix(f.Path, ".json") + "-seq.json"
+				os.WriteFile(seqPath, b, 0o644)
+				c2, o2 := runReplay(seqPath)
+				if c2 == 1 && strings.Contains(o2, "REPRODUCED property="+*prop) {
+					os.Remove(f.Path)
+					f.Path = seqPath
+					f.Detail = sf.Detail
+					confirmed = true
+					break
+				}
+				os.Remove(seqPath)
+				if w == nBefore+1 {
+					break
+				}
 			}
 		}
-		if code == 1 && strings.Contains(string(outb), "REPRODUCED property="+*prop) {
+		if confirmed {
 			violations++
 			fmt.Printf("VIOLATION property=%s replay=%s\n", *prop, f.Path)
 			fmt.Printf("  class=%s key=%q seed=%d index=%d: %s\n", f.Class, f.Key, f.Seed, f.RunIndex, f.Detail)
 		} else {
-			harness += fmt.Sprintf("finding %s did not reproduce in a fresh process (exit %d): %s; replay file kept at %s\n", id, code, tail(string(outb), 500), f.Path)
+			unconfirmed += fmt.Sprintf("finding %s did not reproduce in a fresh process (exit %d): %s; replay file kept at %s\n", id, code, tail(outs, 300), f.Path)
+		}
+	}
+	if unconfirmed != "" {
+		if violations > 0 {
+			fmt.Printf("NOTE: further findings of this batch did not reproduce in a fresh process (files kept):\n%s", unconfirmed)
+		} else {
+			harness += unconfirmed
 		}
 	}
 
@@ -722,6 +837,16 @@ func cmdRun(args []string) int {
 	}
 	fmt.Printf("OK property=%s held on everything explored\n", *prop)
 	return 0
+}
+
+// hasRaceKey: does the outcome contain a race violation matching key?
+func hasRaceKey(o *sim.Outcome, key string) bool {
+	for _, v := range o.Violations {
+		if v.Class == "race" && raceKeyMatch(v.Key, key) {
+			return true
+		}
+	}
+	return false
 }
 
 // raceKeyMatch compares two "a <-> b" race keys; a frame the race runtime could not
